@@ -784,6 +784,34 @@ pub fn builder_state(a: &Asset, remote_only: bool) -> Option<Vec<u8>> {
     r.ok().flatten().filter(|o| !o.is_empty())
 }
 
+/// MP3 whose ID3v2.3 tag carries a manifest store in a GEOB frame with the *deprecated* MIME type
+/// `application/x-c2pa-manifest-store` and a foreign description, written by the harness (files
+/// produced by older SDK versions look like this): replace/remove must treat it as the manifest.
+pub fn legacy_geob_mp3(store: &[u8]) -> Vec<u8> {
+    let mut body = vec![0u8]; // text encoding: ISO-8859-1
+    body.extend_from_slice(b"application/x-c2pa-manifest-store\0");
+    body.extend_from_slice(b"c2pa\0");
+    body.extend_from_slice(b"legacy c2pa store\0");
+    body.extend_from_slice(store);
+    let mut frame = b"GEOB".to_vec();
+    frame.extend_from_slice(&(body.len() as u32).to_be_bytes());
+    frame.extend_from_slice(&[0, 0]);
+    frame.extend_from_slice(&body);
+    // a second, foreign frame so that the tag is not "only C2PA"
+    let mut t = b"TIT2".to_vec();
+    let text = b"\0verif legacy";
+    t.extend_from_slice(&(text.len() as u32).to_be_bytes());
+    t.extend_from_slice(&[0, 0]);
+    t.extend_from_slice(text);
+    frame.extend_from_slice(&t);
+    let sz = frame.len() as u32;
+    let mut v = b"ID3\x03\x00\x00".to_vec();
+    v.extend_from_slice(&[((sz >> 21) & 0x7F) as u8, ((sz >> 14) & 0x7F) as u8, ((sz >> 7) & 0x7F) as u8, (sz & 0x7F) as u8]);
+    v.extend(frame);
+    v.extend(crate::assets::tiny_mp3(2, false));
+    v
+}
+
 /// clean + (signed, xmp where the SDK can produce them) for every asset.
 pub fn subjects(assets: &[Asset], origin: &'static str, states: bool) -> Vec<Subject> {
     let per: Vec<Vec<Subject>> = crate::par::par_map(assets.len(), |i| {
@@ -796,6 +824,12 @@ pub fn subjects(assets: &[Asset], origin: &'static str, states: bool) -> Vec<Sub
             if let Some(b) = builder_state(a, true) {
                 if b != a.bytes {
                     v.push(Subject { name: a.name.clone(), format: a.format, state: "xmp", origin, bytes: b });
+                }
+            }
+            if a.name == "tiny.mp3" {
+                let mut fill = |n: usize| vec![0x5Au8; n];
+                if let Some(st) = crate::jumbf::dummy_store(300, &mut fill) {
+                    v.push(Subject { name: "tiny_legacy_geob.mp3".into(), format: "mp3", state: "legacy-geob", origin, bytes: legacy_geob_mp3(&st) });
                 }
             }
         }
